@@ -18,8 +18,10 @@ EncOk(e) == /\ e.ev = "enc" /\ e.out = "ok" /\ e.out2 = "ok"
 DecRef(e) == LET r == DecBytes(cs.bytes) IN
              IF r.ok THEN e.out = "ok" /\ e.g = r.g ELSE e.out = "err"
 HexSame(e) == e.hexlow = (IF e.out = "ok" THEN e.g ELSE [t |-> "err", m |-> <<>>]) /\ e.hexup = e.hexlow /\ e.hexbad = "ok"
+(* wkb.Read from a reader that returns one byte per call, and from one that returns half of what is asked for *)
+SlowSame(e) == LET want == IF e.out = "ok" THEN e.g ELSE [t |-> "err", m |-> <<>>] IN e.gone = want /\ e.ghalf = want
 
-Dec05(e) == /\ e.ev = "dec" /\ DecRef(e) /\ HexSame(e)
+Dec05(e) == /\ e.ev = "dec" /\ DecRef(e) /\ HexSame(e) /\ SlowSame(e)
             /\ ("want" \in DOMAIN cs => e.out = "ok" /\ e.g = cs.want)           \* lossless, any byte order at any depth
             /\ (e.out = "ok" => e.g2 = e.g)
 
@@ -29,6 +31,7 @@ Dec07(e) == /\ e.ev = "dec"
             /\ e.alloc <= 64 * e.len + 1048576
             /\ (e.out = "ok" => e.reenc = "ok" /\ e.g2 = e.g /\ e.g # NoGeom)
             /\ e.hexbad = "ok" /\ e.hexlow.t # "panic" /\ e.hexup = e.hexlow
+            /\ e.gone.t # "panic" /\ e.ghalf.t # "panic"
             /\ ("bytes" \in DOMAIN cs => DecRef(e))
 
 (* deep chains: the encoder's bytes are the OGC layout of the chain; decoding them, decoding the mixed-order encoding of the
